@@ -220,11 +220,12 @@ def cmp_rules(ctx: Ctx):
             tb = cells_of(key_of_value(model, fi, s.facts, v[3], O), O, f"{name} (other side)")
             tables[name] = ta
             ctx.instance("CMP2")
-            ctx.ob("CMP2", fi.qual, f"ordering key of {name}", ta == tb and ta == t_self,
+            ctx.ob("CMP2", fi.qual, f"ordering key of {name}", ta == tb and _same_components(ta, t_self) and all(ta == t for t in tables.values()),
                    f"{name} orders by a different key than __eq__ compares (ordering key, equality key per cell): "
                    f"{diff_tables(ta, t_self) or diff_tables(ta, tb)}: a == b and a < b can both hold", where(fi, node), sample="ordering key == equality key, same order")
     return t_self
 
 
 def _same_components(a, b):
-    return all(a[c] == b[c] for c in a)
+    """Same components in every cell, in any order (conjunct / element order does not affect == or hash coherence)."""
+    return all(sorted(map(repr, a[c])) == sorted(map(repr, b[c])) for c in a)
